@@ -8,7 +8,8 @@ import StorageModel.C06.Recreate
   be created again and behaves as if it had never existed."
 
   Model: StorageModel/C06/Model.lean — store A (unique, nullable unique, set index, nullable fk
-  index with back-references, nullable fk constraint with cascade delete, link collection,
+  index with back-references, nullable fk constraint → B with cascade delete, nullable fk constraint
+  → A itself (`boss`) with cascade delete over transitive referrers and cycles, link collection,
   ref-counted link collection), its plain child store A1 (own unique index, a link collection
   declared on the child store) and store B (nullable unique index, fk delete restriction, the
   other sides of all links); `Render` is the bucket dump that is diffed against
@@ -49,7 +50,7 @@ theorem stepRaw_of_step_ok {s s' : State} {op : Op} (h : step s op = (s', .ok)) 
 theorem delete_no_trace {s s' : State} {id : Id} (hi : C06.Inv s) (h : step s (.deleteA id) = (s', .ok))
     (hc : NoClash id s') (hb : s'.b.lookup id = none) :
     ∀ line, line ∈ Render s' → ¬ Mentions id line := by
-  have hraw : deleteA s id = .ok s' := stepRaw_of_step_ok h
+  have hraw : deleteATop s id = .ok s' := stepRaw_of_step_ok h
   exact no_trace_of_absent (inv_deleteA hi hraw) hc (deleteA_absent hi hraw).1 hb
 
 /-- **No trace, store B** -/
@@ -67,9 +68,28 @@ theorem cascade_no_trace {s s' : State} {id j : Id} {e : EntA} (hi : C06.Inv s)
     s'.a.lookup j = none ∧ ∀ line, line ∈ Render s' → ¬ Mentions j line := by
   have hraw : deleteB s id = .ok s' := stepRaw_of_step_ok h
   obtain ⟨_, eb, s1, _, _, hcas, rfl⟩ := deleteB_ok hraw
-  obtain ⟨_, _, _, _, _, cgone⟩ := deleteAll_spec (core_congr_uLabel hi.toInvCore _) hcas
+  obtain ⟨_, _, _, _, _, _, cgone⟩ := deleteAll_spec (core_congr_uLabel hi.toInvCore _)
+    (bossOK_congr (s' := { s with uLabel := C03.uniqueBeforeDelete (eb.label.getD []) s.uLabel }) hi.boss rfl) hcas
   have hgone : s1.a.lookup j = none := cgone j ((mem_dependants s id j).2 ⟨e, hj, hd⟩)
   exact ⟨hgone, no_trace_of_absent (inv_deleteB hi hraw) hc hgone hb⟩
+
+/-- **No trace, self-reference cascade.**  Every transitive referrer of the deleted entity through
+    `boss` (`Reports`: one or more steps, cycles included) is removed by the delete, and no line of
+    the dump mentions it afterwards. -/
+theorem boss_cascade_no_trace {s s' : State} {id j : Id} (hi : C06.Inv s) (h : step s (.deleteA id) = (s', .ok))
+    (hr : Reports s id j) (hc : NoClash j s') (hb : s'.b.lookup j = none) :
+    s'.a.lookup j = none ∧ ∀ line, line ∈ Render s' → ¬ Mentions j line := by
+  have hraw : deleteATop s id = .ok s' := stepRaw_of_step_ok h
+  have hgone := boss_cascade_removes hi hraw hr
+  exact ⟨hgone, no_trace_of_absent (inv_deleteA hi hraw) hc hgone hb⟩
+
+/-- **Whatever a committed transaction removed** — by a direct delete, through a child store, or by
+    any cascade, anywhere in the transaction — is mentioned by no line of the dump afterwards. -/
+theorem tx_removed_no_trace {s : State} (ops : List Op) {j : Id} (hi : C06.Inv s)
+    (ha : (txStep s ops).1.a.lookup j = none) (hb : (txStep s ops).1.b.lookup j = none)
+    (hc : NoClash j (txStep s ops).1) :
+    ∀ line, line ∈ Render (txStep s ops).1 → ¬ Mentions j line :=
+  no_trace_of_absent (inv_txStep ops hi) hc ha hb
 
 /-- after the delete the id is gone from every index, back-reference, link and ref-count map -/
 theorem delete_forgets {s s' : State} {id : Id} (hi : C06.Inv s) (h : stepRaw s (.deleteA id) = .ok s')
@@ -82,7 +102,7 @@ theorem delete_forgets {s s' : State} {id : Id} (hi : C06.Inv s) (h : stepRaw s 
     (∀ b, cnt s'.rc.bwd b id = none) ∧ (∀ j, cnt s'.rc.fwd j id = none) ∧
     s'.g.fwd.lookup id = none ∧ s'.g.bwd.lookup id = none ∧ s'.p.fwd.lookup id = none ∧ s'.p.bwd.lookup id = none ∧
     s'.rc.fwd.lookup id = none ∧ s'.rc.bwd.lookup id = none ∧ s'.thg.lookup id = none := by
-  have h' : deleteA s id = .ok s' := h
+  have h' : deleteATop s id = .ok s' := h
   obtain ⟨h1, h2⟩ := deleteA_absent hi h'
   exact absent_everywhere (inv_deleteA hi h') h1 (by rw [h2]; exact hb)
 
@@ -92,18 +112,18 @@ theorem delete_forgets {s s' : State} {id : Id} (hi : C06.Inv s) (h : stepRaw s 
 theorem recreate_fresh {s s' s'' : State} {id : Id} {v : ValsA} (hi : C06.Inv s) (hb : s.b.lookup id = none)
     (hd : stepRaw s (.deleteA id) = .ok s') (hc : stepRaw s' (.createA id v) = .ok s'') :
     C06.Inv s'' ∧
-    s''.a.lookup id = some ⟨v.name, v.alias, setOf v.roles, v.owner, v.dep, none⟩ ∧
+    s''.a.lookup id = some ⟨v.name, v.alias, setOf v.roles, v.owner, v.dep, v.boss, none⟩ ∧
     (∀ w, s''.uName.lookup w = some id ↔ w = v.name) ∧
     (∀ w, s''.uAlias.lookup w = some id ↔ (w ≠ [] ∧ w = v.alias.getD [])) ∧
     (∀ w, s''.uCode.lookup w ≠ some id) ∧
     (∀ w, id ∈ (s''.sRoles.lookup w).getD [] ↔ w ∈ setOf v.roles) ∧
     (∀ b, id ∈ (s''.thg.lookup b).getD [] ↔ (b ≠ [] ∧ v.owner.getD [] = b)) ∧
     (∀ b, cnt s''.rc.bwd b id = none) ∧ s''.p.fwd.lookup id = none := by
-  have hd' : deleteA s id = .ok s' := hd
+  have hd' : deleteATop s id = .ok s' := hd
   have hc' : createA s' id v = .ok s'' := hc
   have hi' := inv_deleteA hi hd'
   have hi'' := inv_createA hi' hc'
-  have hent : s''.a.lookup id = some ⟨v.name, v.alias, setOf v.roles, v.owner, v.dep, none⟩ := by
+  have hent : s''.a.lookup id = some ⟨v.name, v.alias, setOf v.roles, v.owner, v.dep, v.boss, none⟩ := by
     rw [(createA_entity hc').1]; simp
   refine ⟨hi'', hent, ?_, ?_, ?_, ?_, ?_, ?_, ?_⟩
   · intro w
@@ -143,8 +163,8 @@ open StorageModel.C03 (Map Id Err setOf Line)
 theorem recreate_accepted_iff {s s' : State} {id : Id} (v : ValsA) (hi : C06.Inv s)
     (hd : stepRaw s (.deleteA id) = .ok s') :
     (∃ s'', stepRaw s' (.createA id v) = .ok s'') ↔ AcceptableA s' id v := by
-  have hd' : deleteA s id = .ok s' := hd
-  exact createA_accepts_iff (inv_deleteA hi hd') (deleteA_stages hi.toInvCore hd').1 (deleteA_absent hi hd').1
+  have hd' : deleteATop s id = .ok s' := hd
+  exact createA_accepts_iff (inv_deleteA hi hd') (deleteATop_id_ne hd') (deleteA_absent hi hd').1
 
 /-- … hence exactly as in *any* consistent state with the same entity tables in which the id is
     absent — for instance one reached by a history that never used the id: "as if it had never
@@ -153,8 +173,8 @@ theorem recreate_as_if_never_existed {s s' t : State} {id : Id} (v : ValsA) (hi 
     (hd : stepRaw s (.deleteA id) = .ok s') (ht : C06.Inv t)
     (ha : ∀ j, t.a.lookup j = s'.a.lookup j) (hb : ∀ j, t.b.lookup j = s'.b.lookup j) :
     (∃ s'', stepRaw s' (.createA id v) = .ok s'') ↔ (∃ t'', stepRaw t (.createA id v) = .ok t'') := by
-  have hd' : deleteA s id = .ok s' := hd
-  have hid := (deleteA_stages hi.toInvCore hd').1
+  have hd' : deleteATop s id = .ok s' := hd
+  have hid := deleteATop_id_ne hd'
   have hna := (deleteA_absent hi hd').1
   rw [recreate_accepted_iff v hi hd]
   have : (∃ t'', createA t id v = .ok t'') ↔ AcceptableA t id v :=
@@ -191,12 +211,12 @@ theorem child_create_empty_name_rejected {s : State} {id : Id} {v : ValsA} {code
 
   ids: a = [97], b = [98]; owners p = [112], q = [113]; values x y z m n. -/
 
-def vA : ValsA := ⟨[120], none, [[109]], some [112], none, [[112]]⟩
+def vA : ValsA := ⟨[120], none, [[109]], some [112], none, [[112]], none⟩
 
 /-- former open item #17 (repaired by 8269ce9): child-store create over an existing plain parent
     re-indexes the parent; after the delete nothing mentions the id -/
 def exOver : State := run [[.createB [112] none], [.createA [97] vA],
-  [.createA1 [97] ⟨[121], none, [[110]], none, none, []⟩ [122] [[112]]]]
+  [.createA1 [97] ⟨[121], none, [[110]], none, none, [], none⟩ [122] [[112]]]]
 
 theorem child_create_over_parent_reindexes :
     exOver.uName.lookup [120] = none ∧ exOver.uName.lookup [121] = some [97] ∧ exOver.sRoles.lookup [109] = none ∧
@@ -221,12 +241,36 @@ theorem rc_and_child_links_no_trace :
 
 /-- a cascading delete: deleting owner q removes its dependant b, and neither id is mentioned afterwards -/
 def exCascade : State := run [[.createB [112] none, .createB [113] none],
-  [.createA [98] ⟨[121], none, [], some [112], some [113], [[113]]⟩], [.rcSet [98] [113] 2]]
+  [.createA [98] ⟨[121], none, [], some [112], some [113], [[113]], none⟩], [.rcSet [98] [113] 2]]
 
 theorem cascade_witness :
     (step exCascade (.deleteB [113])).2 = .ok ∧ (step exCascade (.deleteB [113])).1.a.lookup [98] = none ∧
     (Render (step exCascade (.deleteB [113])).1).filter (fun l => decide (Mentions [98] l) || decide (Mentions [113] l)) = [] := by
   decide
+
+/-- a reference cycle a → b → a with a further referrer c → a and a self reference d → d: deleting a
+    removes a, b and c (the cascade terminates), d stays; nothing mentions the removed ids -/
+def exCycle : State := run [[.createA [97] ⟨[120], none, [], none, none, [], none⟩],
+  [.createA [98] ⟨[121], none, [], none, none, [], some [97]⟩, .createA [99] ⟨[122], none, [[109]], none, none, [], some [97]⟩],
+  [.updateA [97] ⟨[120], none, [], none, none, [], some [98]⟩ none],
+  [.createA [100] ⟨[119], none, [], none, none, [], some [100]⟩]]
+
+theorem cycle_witness :
+    (exCycle.a.lookup [97]).map (·.boss) = some (some [98]) ∧ (exCycle.a.lookup [98]).map (·.boss) = some (some [97]) ∧
+    (step exCycle (.deleteA [97])).2 = .ok ∧
+    Map.keys (step exCycle (.deleteA [97])).1.a = [[100]] ∧
+    (Render (step exCycle (.deleteA [97])).1).filter
+      (fun l => decide (Mentions [97] l) || decide (Mentions [98] l) || decide (Mentions [99] l)) = [] ∧
+    (step (step exCycle (.deleteA [97])).1 (.deleteA [100])).2 = .ok ∧
+    (step (step exCycle (.deleteA [97])).1 (.deleteA [100])).1.a = [] := by
+  decide
+
+/-- the hypotheses of `boss_cascade_no_trace` are satisfiable: c reports to a in two ways (directly), b through the cycle -/
+example : Reports exCycle [97] [99] := .direct (e := ⟨[122], none, [[109]], none, none, some [97], none⟩) (by decide) rfl
+example : Reports exCycle [97] [97] :=
+  .step (k := [98]) (e := ⟨[120], none, [], none, none, some [98], none⟩) (by decide) rfl
+    (.direct (e := ⟨[121], none, [], none, none, some [97], none⟩) (by decide) rfl)
+example : NoClash [99] (step exCycle (.deleteA [97])).1 := noClash_of_check (by decide)
 
 /-- `NoClash` holds in the harness universe: the hypotheses of the no-trace theorems are satisfiable -/
 example : NoClash [97] (step exRc (.deleteA [97])).1 := noClash_of_check (by decide)
@@ -238,4 +282,6 @@ end StorageModel.Properties.C06
 #print axioms StorageModel.Properties.C06.inv_reachable
 #print axioms StorageModel.Properties.C06.absent_no_trace
 #print axioms StorageModel.Properties.C06.cascade_no_trace
+#print axioms StorageModel.Properties.C06.boss_cascade_no_trace
+#print axioms StorageModel.Properties.C06.tx_removed_no_trace
 #print axioms StorageModel.Properties.C06.recreate_as_if_never_existed
